@@ -272,6 +272,38 @@ def _mutations_of(fn_node, expr_src: str):
     return hits
 
 
+def _mutable_default_escape(fn_node, is_method: bool = True):
+    """(parameter, default, offending node) when a parameter whose default is a mutable literal / constructor ([] {} set() list()
+    dict() bytearray() deque()) is stored into an attribute or container, mutated in place, or returned -- without having been
+    re-bound first.  Reading it, iterating it, copying it (`list(p)`, `dict(p)`, `p.copy()`) is harmless."""
+    a = fn_node.args
+    pos = a.posonlyargs + a.args
+    pairs = list(zip(pos[len(pos) - len(a.defaults):], a.defaults)) + [(p_, d_) for p_, d_ in zip(a.kwonlyargs, a.kw_defaults) if d_ is not None]
+    for p_, d_ in pairs:
+        if not _is_mutable_value(d_):
+            continue
+        name = p_.arg
+        if any(isinstance(x, ast.Name) and x.id == name and isinstance(x.ctx, ast.Store) for x in ast.walk(fn_node)):
+            continue                    # re-bound somewhere (`p = p or []` / `if p is None`): not decided here
+        for n in own_nodes(fn_node):
+            if isinstance(n, (ast.Assign, ast.AnnAssign)) and n.value is not None and isinstance(n.value, ast.Name) and n.value.id == name:
+                tg = n.targets if isinstance(n, ast.Assign) else [n.target]
+                if any(isinstance(t, (ast.Attribute, ast.Subscript)) for t in tg):
+                    return (name, d_, n)
+            if isinstance(n, ast.Return) and isinstance(n.value, ast.Name) and n.value.id == name:
+                return (name, d_, n)
+            if not is_method:
+                continue                # a plain function filling in its own default argument changes no object's state (what later
+                #                         calls of that function see is outside "instances are independent")
+            if isinstance(n, ast.Call) and isinstance(n.func, ast.Attribute) and isinstance(n.func.value, ast.Name) and n.func.value.id == name and n.func.attr in MUTATORS:
+                return (name, d_, n)
+            if isinstance(n, (ast.Assign, ast.AugAssign, ast.Delete)):
+                tg = n.targets if isinstance(n, (ast.Assign, ast.Delete)) else [n.target]
+                if any(isinstance(t, ast.Subscript) and isinstance(t.value, ast.Name) and t.value.id == name for t in tg):
+                    return (name, d_, n)
+    return None
+
+
 def isolation(chk, rule: str, rels=None):
     """No class keeps state in a mutable class-level object that instances mutate in place (every instance, i.e. every
     node / client / map / dictionary, would share it), and the codec objects shared through class-level tables are
@@ -335,7 +367,24 @@ def isolation(chk, rule: str, rels=None):
                         chk.bad(rule, f"{m.rel}:{c.name}.{mname} | the constructor runs once", meth.loc(x),
                                 f"`{src(x)[:40]}` re-initialises a live object: callbacks registered on it are forgotten and threads waiting on its condition variable "
                                 f"are never woken (they wait on the old one)")
+    # a mutable default argument is one object for all calls: stored on the instance (or mutated, or returned) it is shared by
+    # every instance / call that relies on the default
+    n_def = 0
+    for m in repo.modules.values():
+        if rels is not None and m.rel not in rels:
+            continue
+        for f2 in list(m.funcs.values()) + [mm for cc in m.classes.values() for mm in cc.methods.values()]:
+            hit = _mutable_default_escape(f2.node, f2.cls is not None)
+            n_def += 1
+            if hit is not None:
+                pname, dflt, how = hit
+                chk.bad(rule, f"{m.rel}:{f2.qualname} | default of `{pname}` is one shared object", f2.loc(how),
+                        f"`{pname}={src(dflt)}` is created once, and `{src(how)[:60]}` keeps or changes that object: every call (every node / consumer / map) "
+                        f"that relies on the default shares it, so what one of them registers or stores shows up in all the others")
+    chk.ok(rule, f"{'package' if rels is None else ', '.join(sorted(rels))} | no mutable default argument kept or mutated", "canopen/", f"scanned {n_def} functions")
     logging_inert(chk, rule, rels)
+    tdef = ast.parse("class S:\n    def __init__(self, callbacks=[]):\n        self.callbacks = callbacks\n").body[0].body[0]
+    chk.fixture(rule, "mutable default stored on the instance", _mutable_default_escape(tdef) is not None)
     t = ast.parse("class S:\n    _buffer = bytearray()\n    def f(self, d):\n        b = self._buffer\n        b[:] = d\n")
     chk.fixture(rule, "class-level bytearray mutated through an alias", _is_mutable_value(t.body[0].body[0].value) and bool(_mutations_of(t.body[0].body[1], "self._buffer")))
 
@@ -472,6 +521,15 @@ def logging_inert(chk, rule: str, rels=None):
     the call and raises TypeError/ValueError into the data path for a value of another type (a float where `:d` is used)."""
     repo, folder = ctx(chk)
     n_calls = 0
+    # functions / properties of the package whose evaluation can fail arithmetically (a division by something that is not a literal)
+    def _divides(node):
+        return [x for x in ast.walk(node) if isinstance(x, ast.BinOp) and isinstance(x.op, (ast.Div, ast.FloorDiv, ast.Mod)) and not isinstance(x.right, ast.Constant)
+                and not (isinstance(x.left, ast.Constant) and isinstance(x.left.value, (str, bytes))) and not isinstance(x.left, ast.JoinedStr)]
+    dividing = {}
+    for m_ in repo.modules.values():
+        for f_ in list(m_.funcs.values()) + [mm for cc in m_.classes.values() for mm in cc.methods.values()]:
+            if _divides(f_.node):
+                dividing.setdefault(f_.name, f_)
     for m in repo.modules.values():
         if rels is not None and m.rel not in rels:
             continue
@@ -497,6 +555,11 @@ def logging_inert(chk, rule: str, rels=None):
                     elif isinstance(x, ast.Call) and isinstance(x.func, ast.Attribute) and x.func.attr == "format" and isinstance(x.func.value, ast.Constant) \
                             and isinstance(x.func.value.value, str) and any(f":{t}}}" in x.func.value.value or f"{t}}}" in x.func.value.value.split(":")[-1] for t in "dxXf"):
                         bad = f"eager `{ast.unparse(x)[:40]}`"
+                    if bad is None and x in _divides(a):
+                        bad = f"the division `{ast.unparse(x)[:40]}` (ZeroDivisionError for a zero divisor)"
+                    elif bad is None and isinstance(x, ast.Attribute) and isinstance(x.ctx, ast.Load) and x.attr in dividing and isinstance(x.value, ast.Name) and x.value.id == "self" \
+                            and dividing[x.attr].kind in ("getter", "method", "static", "function"):
+                        bad = f"`{ast.unparse(x)}` evaluates {dividing[x.attr].qualname}, which divides (ZeroDivisionError for a zero divisor); it"
                     if bad:
                         chk.bad(rule, f"{m.rel}:{c.lineno} | logging statement cannot raise", f"{m.rel}:{c.lineno}",
                                 f"{bad} is formatted eagerly inside a {c.func.attr}() call: a value of another type (float, None) raises here, in the middle of the operation, "
@@ -695,3 +758,54 @@ def cob_id_fields(chk, rule: str):
             chk.unk(rule, f"{PB}:PdoMap.read | {attr}", read.loc(st), f"`{src(e_)}` does not evaluate: {wrong[1]}")
         else:
             chk.check(wrong is None, rule, f"{PB}:PdoMap.read | {attr}", read.loc(st), wrong[1] if wrong else "", f"evaluated for {len(probes)} COB-ID words")
+
+
+def notify_params_unchanged(chk, rule: str):
+    """Network.notify hands the frame's own id, data and timestamp to the callbacks: none of the three parameters is re-bound on
+    the way, except to fill in a value that was not given (`if timestamp is None: timestamp = ...`) -- a truth-value test instead
+    would replace the legal values 0 / 0.0 / b'' as well."""
+    repo, folder = ctx(chk)
+    NETR = "canopen/network.py"
+    no = repo.func(NETR, "Network.notify", f"{chk.prop}.{rule}")
+    fn = ff_for(chk, no, f"{chk.prop}.{rule}")
+    from ..facts import assigned_targets
+    bad = None
+    for n in own_nodes(no.node):
+        if not isinstance(n, ast.stmt):
+            continue
+        hit = {"can_id", "data", "timestamp"} & assigned_targets(n)
+        if not hit or isinstance(n, (ast.For, ast.While, ast.If, ast.With, ast.Try)):
+            continue
+        for nm in hit:
+            facts = [(fn.norm(e, subst=False), p) for e, p in fn.facts_at(n)]
+            if not any((t == f"{nm} is None" and p) or (t == f"{nm} is not None" and not p) for t, p in facts):
+                bad = bad or (n, nm, facts)
+    chk.check(bad is None, rule, f"{NETR}:Network.notify | parameters unchanged", no.loc(bad[0]) if bad else no.loc(),
+              f"`{src(bad[0])[:60]}` replaces the frame's {bad[1]} under {bad[2]}: callbacks (PDO maps, EMCY log, heartbeat) get something else than the frame carried"
+              + (" -- a truth-value test also replaces a legal 0 / 0.0" if bad and any(t in (bad[1], f"not {bad[1]}") for t, _ in bad[2]) else "") if bad else "")
+
+
+def sdo_address_unchanged(chk, rule: str):
+    """The object addressed on the wire is the one the caller named: SdoClient.open / upload / download and the stream constructors
+    do not re-bind `index` or `subindex` -- except to translate a name (`isinstance(index, str)` in force), the only input for which
+    the number has to come from somewhere else."""
+    repo, folder = ctx(chk)
+    CLI = "canopen/sdo/client.py"
+    from ..facts import assigned_targets
+    n = 0
+    for fq in ("SdoClient.open", "SdoClient.upload", "SdoClient.download", "ReadableStream.__init__", "WritableStream.__init__",
+               "BlockUploadStream.__init__", "BlockDownloadStream.__init__"):
+        f = repo.func(CLI, fq, f"{chk.prop}.{rule}")
+        ff = ff_for(chk, f, f"{chk.prop}.{rule}")
+        n += 1
+        for st in own_nodes(f.node):
+            if not isinstance(st, (ast.Assign, ast.AugAssign, ast.AnnAssign)):
+                continue
+            hit = {"index", "subindex"} & assigned_targets(st)
+            for nm in sorted(hit):
+                facts = [(e, p) for e, p in ff.facts_at(st)]
+                named = any(p and isinstance(e, ast.Call) and dotted(e.func) == "isinstance" and len(e.args) == 2 and src(e.args[0]) == nm and "str" in src(e.args[1]) for e, p in facts)
+                chk.check(named, rule, f"{CLI}:{fq} | {nm} is the caller's", f.loc(st),
+                          f"`{src(st)[:60]}` replaces the {nm} given by the caller (conditions {[(src(e), p) for e, p in facts]}): the request on the wire addresses another object "
+                          f"than the one asked for")
+    chk.ok(rule, f"{CLI} | index / subindex reach the request unchanged", CLI, f"{n} functions scanned")
